@@ -219,6 +219,12 @@ class Typer:
         if isinstance(e, ast.Name):
             if e.id in env:
                 return env[e.id]
+            g: Optional[FuncInfo] = f
+            while g is not None:  # nested function definitions of the enclosing scopes
+                nf = self.P.nested(g, e.id)
+                if nf is not None:
+                    return ("func", nf.qualname)
+                g = g.parent
             return self.name_type(m, e.id)
         if isinstance(e, ast.Await):
             return self.expr(f, e.value, env)
